@@ -560,13 +560,15 @@ class Interp:
                 kx = sym.smin(start, stop) if desc else sym.smax(start, stop)
                 scrub()
                 rule.havoc(self, fr, kx)
-                c.ghost["phase"] = "exhausted"
+                if not c.ghost.get("_loop_depth"):
+                    c.ghost["phase"] = "exhausted"
             else:
                 kx = SInt.var(c.fresh_name("kexit"))
                 c.assume(kx >= 0)
                 scrub()
                 rule.havoc(self, fr, kx)
-                c.ghost["phase"] = "exhausted"
+                if not c.ghost.get("_loop_depth"):
+                    c.ghost["phase"] = "exhausted"
                 if not getattr(rule, "skip_body", False):
                     cond = self.eval(s.test, fr)
                     c.assume(snot(cond) if isinstance(cond, SBool) else (not cond))
@@ -588,19 +590,26 @@ class Interp:
                 c.assume(k < stop)
         scrub()
         rule.havoc(self, fr, k)
-        c.ghost["phase"] = "generic"
+        # "phase" describes the OUTERMOST symbolic loop of the path: loops nested in its generic iteration do not overwrite it
+        depth = c.ghost.get("_loop_depth", 0)
+        if not depth:
+            c.ghost["phase"] = "generic"
         if rng is not None:
             self.assign(s.target, elem(k) if elem is not None else k, fr)
         else:
             cond = self.eval(s.test, fr)
             c.assume(cond)
+        c.ghost["_loop_depth"] = depth + 1
         try:
             self.exec_block(s.body, fr)
         except _Break:
+            c.ghost["_loop_depth"] = depth
             c.where = where0
             return
         except _Continue:
             pass
+        finally:
+            c.ghost["_loop_depth"] = depth
         c.where = f"{qual}#loop{ordinal}.preserve"
         rule.preserve(self, fr, k)
         c.ghost["loop_end"] = (qual, ordinal, fr)
